@@ -88,12 +88,13 @@ var defaultExecPkgs = map[string]bool{
 }
 
 var defaultExecFuncs = map[string]bool{
-	"(reflect.StructTag).Lookup":  true,
-	"(reflect.StructTag).Get":     true,
-	"errors.New":                  true,
-	"(*errors.errorString).Error": true,
-	"errors.Unwrap":               true,
-	"(*sync.Once).Do":             false,
+	"(reflect.StructTag).Lookup":       true,
+	"(reflect.StructField).IsExported": true,
+	"(reflect.StructTag).Get":          true,
+	"errors.New":                       true,
+	"(*errors.errorString).Error":      true,
+	"errors.Unwrap":                    true,
+	"(*sync.Once).Do":                  false,
 }
 
 func (e *Engine) pkgExecutable(path string) bool {
@@ -107,6 +108,9 @@ func (e *Engine) pkgExecutable(path string) bool {
 }
 
 func (e *Engine) funcAllowed(fn *ssa.Function) bool {
+	if strings.HasPrefix(fn.String(), "reflect.TypeFor[") {
+		return true // generic helper over TypeOf / Elem, both modelled
+	}
 	return defaultExecFuncs[fn.String()]
 }
 
@@ -1060,6 +1064,45 @@ func ext۰sync۰Map۰Store(fr *frame, args []value) value {
 	return nil
 }
 
+func ext۰sync۰Map۰LoadOrStore(fr *frame, args []value) value {
+	m := fr.i.syncMap(args[0].(*value))
+	if e := m.find(fr.i, args[1]); e != nil {
+		return tuple{e.val, true}
+	}
+	m.insert(fr.i, args[1], args[2])
+	return tuple{args[2], false}
+}
+
+// structFieldIndex finds a field of a struct type of an imported package.
+func (i *interpreter) structFieldIndex(pkg, typ, field string) int {
+	p := i.prog.ImportedPackage(pkg)
+	if p == nil {
+		panic(unsupported("package " + pkg + " not loaded"))
+	}
+	st := p.Pkg.Scope().Lookup(typ).Type().Underlying().(*types.Struct)
+	for k := 0; k < st.NumFields(); k++ {
+		if st.Field(k).Name() == field {
+			return k
+		}
+	}
+	panic(unsupported("no field " + field + " in " + pkg + "." + typ))
+}
+
+// sync.Pool: single-threaded paths: Get always allocates through New, Put drops.
+func ext۰sync۰Pool۰Get(fr *frame, args []value) value {
+	pool := (*args[0].(*value)).(structure)
+	newFn := pool[fr.i.structFieldIndex("sync", "Pool", "New")]
+	switch f := newFn.(type) {
+	case *ssa.Function:
+		if f == nil {
+			return iface{}
+		}
+	case nil:
+		return iface{}
+	}
+	return call(fr.i, fr, token.NoPos, newFn, nil)
+}
+
 // ---------------------------------------------------------------------
 // regexp: compiled patterns are host handles; matching a concrete string is
 // native, matching a symbolic string goes through the reference matcher
@@ -1650,6 +1693,12 @@ func registerModels() {
 		"strings.LastIndexByte":                    ext۰strings۰LastIndexByte,
 		"strings.Contains":                         ext۰strings۰Contains,
 		"strings.EqualFold":                        ext۰strings۰EqualFold,
+		"strings.Compare": func(fr *frame, args []value) value {
+			if allConcreteStrings(args[0], args[1]) {
+				return strings.Compare(args[0].(string), args[1].(string))
+			}
+			panic(unsupported("strings.Compare on symbolic strings"))
+		},
 		"strings.ToUpper":                          ext۰strings۰ToUpper,
 		"strings.ToLower":                          ext۰strings۰ToLower,
 		"strings.Repeat":                           ext۰strings۰Repeat,
@@ -1703,6 +1752,12 @@ func registerModels() {
 		"sort.Ints":                                ext۰sort۰Ints,
 		"(*sync.Map).Load":                         ext۰sync۰Map۰Load,
 		"(*sync.Map).Store":                        ext۰sync۰Map۰Store,
+		"(*sync.Map).LoadOrStore":                  ext۰sync۰Map۰LoadOrStore,
+		"(*sync.Pool).Get":                         ext۰sync۰Pool۰Get,
+		"(*sync.Pool).Put":                         func(fr *frame, args []value) value { return nil },
+		"(*sync.WaitGroup).Add":                    func(fr *frame, args []value) value { return nil },
+		"(*sync.WaitGroup).Done":                   func(fr *frame, args []value) value { return nil },
+		"(*sync.WaitGroup).Wait":                   func(fr *frame, args []value) value { return nil },
 		"regexp.Compile":                           ext۰regexp۰Compile,
 		"regexp.MustCompile":                       ext۰regexp۰MustCompile,
 		"regexp.QuoteMeta":                         ext۰regexp۰QuoteMeta,
@@ -1718,11 +1773,11 @@ func registerModels() {
 		"fmt.Sprint":                               ext۰fmt۰Sprint,
 		"fmt.Fprintf":                              ext۰fmt۰Fprintf,
 		// environment stub: writing to a process stream succeeds and has no effect
-		"(*os.File).Write": func(fr *frame, args []value) value { return tuple{len(args[1].([]value)), iface{}} },
-		"(*fmt.wrapError).Error":                   ext۰fmt۰wrapError۰Error,
-		"(*fmt.wrapError).Unwrap":                  ext۰fmt۰wrapError۰Unwrap,
-		"(reflect.Kind).String":                    ext۰reflect۰Kind۰String,
-		"errors.Is":                                ext۰errors۰Is,
+		"(*os.File).Write":        func(fr *frame, args []value) value { return tuple{len(args[1].([]value)), iface{}} },
+		"(*fmt.wrapError).Error":  ext۰fmt۰wrapError۰Error,
+		"(*fmt.wrapError).Unwrap": ext۰fmt۰wrapError۰Unwrap,
+		"(reflect.Kind).String":   ext۰reflect۰Kind۰String,
+		"errors.Is":               ext۰errors۰Is,
 	} {
 		externals[k] = v
 	}
